@@ -140,6 +140,11 @@ def make_stream(rng, case, rows, mode):
         pos = rng.choice([0, ncorners - 1, rng.randrange(ncorners)])
         excess = rng.choice([0, 0, 1, 2] + [b - n for b in big])
         flat[pos * nind + off] = n + excess
+        if via == 'create' and case.get('dtype') in ('int64', 'uint32') and rng.random() < 0.4:
+            # beyond 32 bits (and values that would wrap to something small or negative if narrowed)
+            wide = [2 ** 31 + 1, 2 ** 32 - 1] if case['dtype'] == 'uint32' else \
+                [2 ** 31 + 1, 2 ** 32 - 1, 2 ** 32 + rng.randint(0, 2), 3 * 2 ** 32 + 1, 2 ** 40, 2 ** 62]
+            flat[pos * nind + off] = rng.choice(wide)
     if mode == 'ragged':
         period = k * nind
         if rng.random() < 0.5 or len(flat) < period:
@@ -187,9 +192,20 @@ def gen_case(rng, max_rows=4, rows=None, modes=(50, 30, 8, 9, 3), clean=False, m
     srcs, inputs = gen_layout(rng, kind, via, max_inputs=max_inputs, clean=clean)
     case = {'kind': kind, 'via': via, 'srcs': srcs, 'inputs': inputs,
             'material': rng.choice([None, 1, 2]),
-            'dtype': rng.choice(['int32', 'int32', 'int64', 'uint32']), 'vcform': rng.choice(['array', 'list'])}
+            'dtype': rng.choice(['int32', 'int32', 'int64', 'uint32']),
+            'vcform': rng.choice(['array', 'array', 'list', 'uint8', 'int8', 'int16', 'uint16', 'int64'])}
     if via == 'xml':
         param_forms(rng, case, clean)
+    else:
+        data_forms(rng, case)
+    if rng.random() < 0.5:
+        # the inputs' `set` attributes: absent, ascending, descending, repeated, arbitrary (never read by
+        # the constructors; the buckets keep declaration order)
+        n = len(inputs)
+        how = rng.choice(['none', 'desc', 'same', 'random', 'mixed'])
+        case['sets'] = {'none': [None] * n, 'desc': [str(n - 1 - k) for k in range(n)], 'same': ['0'] * n,
+                        'random': [str(rng.randint(0, 3)) for _ in range(n)],
+                        'mixed': [None if rng.random() < 0.5 else str(rng.randint(0, 3)) for _ in range(n)]}[how]
     if rows is None:
         rows = rng.choice([0, 1, 1, 2, 2, 3, max_rows])
     mode = rng.choices(['ok', 'oor', 'ragged', 'vcount', 'novertex'], list(modes))[0]
@@ -212,6 +228,21 @@ def gen_case(rng, max_rows=4, rows=None, modes=(50, 30, 8, 9, 3), clean=False, m
         case['prelude'] = [make_stream(rng, case, rng.choice([1, 2]), rng.choice(['ok', 'ok', 'oor']))
                            for _ in range(rng.choice([1, 1, 2]))]
     return case
+
+
+def data_forms(rng, case):
+    """API path: the Python form of the data array handed to FloatSource (same values, same model)"""
+    forms = {}
+    for i, (n, nc) in enumerate(case['srcs']):
+        if rng.random() < 0.3:
+            size = n * nc
+            opts = ['f64', 'strided']
+            if size > 0:
+                opts += ['rows']      # (a non-contiguous 2-D slice makes FloatSource itself raise AttributeError: logged, not generated)
+                opts += ['wide%d' % w for w in range(1, size + 1) if size % w == 0 and w != nc]
+            forms[str(i)] = rng.choice(opts)
+    if forms:
+        case['dforms'] = forms
 
 
 def param_forms(rng, case, clean):
@@ -272,6 +303,41 @@ def systematic_source_cases():
         for q in (0, 2):
             for r in range(nc):
                 yield {'kind': 'source', 'via': 'create', 'n': q * nc + r, 'ncomp': nc, 'form': 'std'}
+
+
+def multiset_cases():
+    """deterministic: two inputs of a multi-set semantic (offsets 1 and 2, VERTEX at 0) x same source /
+    equally long / first longer / second longer x set attributes ascending, descending, absent x the
+    out-of-range entry in the first or the second set's column, at the first or the last corner"""
+    for kind in KINDS:
+        for sem in ['TEXCOORD'] + (['TEXTANGENT', 'TEXBINORMAL'] if kind == 'tri' else []):
+            nc = WANT[sem]
+            for share, lens in (('same', (3, 3)), ('eq', (3, 3)), ('first-longer', (5, 2)), ('second-longer', (2, 5))):
+                for sets in (['0', '0', '1'], ['0', '1', '0'], None):
+                    for badset in (0, 1):
+                        for pos in ('first', 'last'):
+                            srcs = [[4, 3], [lens[0], nc]] + ([] if share == 'same' else [[lens[1], nc]])
+                            s2 = 1 if share == 'same' else 2
+                            inputs = [[0, 'VERTEX', ['src', 0]], [1, sem, ['src', 1]], [2, sem, ['src', s2]]]
+                            ncorn = {'tri': 6, 'line': 4, 'polylist': 5, 'polygons': 5}[kind]
+                            flat = []
+                            for c in range(ncorn):
+                                flat += [c % 4, c % lens[0], c % (lens[0] if share == 'same' else lens[1])]
+                            c = 0 if pos == 'first' else ncorn - 1
+                            n_bad = lens[0] if (badset == 0 or share == 'same') else lens[1]
+                            flat[3 * c + 1 + badset] = n_bad          # out of range by exactly one
+                            case = {'kind': kind, 'via': 'create' if (badset + (pos == 'last')) % 2 == 0 else 'xml',
+                                    'srcs': srcs, 'inputs': inputs, 'material': None, 'mode': 'multiset',
+                                    'dtype': 'int32', 'vcform': 'array'}
+                            if sets is not None:
+                                case['sets'] = sets
+                            if kind == 'polygons':
+                                case['polys'] = [flat[:6], flat[6:]]
+                            else:
+                                case['flat'] = flat
+                                if kind == 'polylist':
+                                    case['vcounts'] = [2, 3]
+                            yield case
 
 
 def polygon_remainder_cases(rng):
@@ -448,7 +514,7 @@ def run(ctx):
         cases.append(gen_case(ctx.rng))
     for _ in range(60 if quick else 600):
         cases.append(gen_source_case(ctx.rng))
-    systematic = list(systematic_source_cases()) + list(polygon_remainder_cases(ctx.rng))
+    systematic = list(systematic_source_cases()) + list(polygon_remainder_cases(ctx.rng)) + list(multiset_cases())
     cases.extend(systematic)
     nexh = 0
     if not quick:
@@ -468,6 +534,7 @@ def run(ctx):
     dist = {'by_kind': {}, 'by_via': {}, 'by_mode': {}, 'accepted': 0, 'rejected_by_code': {},
             'judged_bad': {}, 'inputs_histogram': {}, 'zero_rows': 0, 'corpus_cases': ncorpus,
             'with_prelude_constructions': 0, 'with_param_name_forms': 0, 'index_dtypes': {},
+            'with_source_data_forms': 0, 'vcounts_forms': {},
             'exhaustive_slice_cases': nexh, 'systematic_source_and_polygon_remainder_cases': len(systematic)}
     for c, r in zip(cases, results):
         dist['by_kind'][c['kind']] = dist['by_kind'].get(c['kind'], 0) + 1
@@ -484,6 +551,9 @@ def run(ctx):
         if c['kind'] != 'source':
             dist['with_prelude_constructions'] += 1 if c.get('prelude') else 0
             dist['with_param_name_forms'] += 1 if c.get('pnames') else 0
+            dist['with_source_data_forms'] += 1 if c.get('dforms') else 0
+            if c['kind'] == 'polylist' and c['via'] == 'create':
+                dist['vcounts_forms'][c.get('vcform')] = dist['vcounts_forms'].get(c.get('vcform'), 0) + 1
             if c['via'] == 'create':
                 dist['index_dtypes'][c.get('dtype', 'int32')] = dist['index_dtypes'].get(c.get('dtype', 'int32'), 0) + 1
             n = str(len(c['inputs']))
@@ -514,7 +584,7 @@ def run(ctx):
         extra = [m['input'] for m in mm if m.get('input')]
         extra += [gen_case(ctx.rng, max_rows=6) for _ in range(6000)]
         extra += [gen_source_case(ctx.rng) for _ in range(200)]
-        extra += list(polygon_remainder_cases(ctx.rng))
+        extra += list(polygon_remainder_cases(ctx.rng)) + list(multiset_cases())
         res = run_impl_cases(extra)
         return first_failures(extra, res)
 
